@@ -134,3 +134,54 @@ func (ctx *EvalCtx) libCall(m LibFn, fn *ssa.Function, args []*Term) (cv CV, ok 
 	ctx.tuples[cvs[0].t] = cvs
 	return cvs[0], true
 }
+
+// havocPointee: the effect of an "assigns *param" frame item at a call site.
+func (fr *Frame) havocPointee(st *State, param string, names []string, c *ssa.CallCommon, args []*Term) bool {
+	ex := fr.ex
+	idx := -1
+	for i, n := range names {
+		if n == param {
+			idx = i
+		}
+	}
+	if idx < 0 || idx >= len(args) {
+		return false
+	}
+	var sv ssa.Value
+	switch {
+	case len(c.Args) == len(args):
+		sv = c.Args[idx]
+	case len(c.Args)+1 == len(args) && idx >= 1:
+		sv = c.Args[idx-1]
+	default:
+		return false
+	}
+	for {
+		switch x := sv.(type) {
+		case *ssa.MakeInterface:
+			sv = x.X
+			continue
+		case *ssa.ChangeInterface:
+			sv = x.X
+			continue
+		case *ssa.ChangeType:
+			sv = x.X
+			continue
+		}
+		break
+	}
+	pt, ok := types.Unalias(sv.Type()).Underlying().(*types.Pointer)
+	if !ok {
+		return false
+	}
+	if _, _, ok := ex.tm.StructOf(pt.Elem()); !ok {
+		return false
+	}
+	p := fr.val(sv)
+	nv := ex.freshOf(st, "out."+sanitize(param), pt.Elem())
+	// a nil pointer is not written through
+	pre := st.clone()
+	ex.store(st, p, pt.Elem(), nv)
+	_ = pre
+	return true
+}
